@@ -733,3 +733,57 @@ def ob_dbos_two_replicas(T: int, u1: int, u2: int, crash: bool) -> bool:
     bad = _two_replicas(T, crash, u1, u2)
     _debug(f"two_replicas T={T} u1={u1} u2={u2} crash={crash}", bad)
     return not bad
+
+
+
+# ------------------------------------------------------------------------------------------------ DBOS stack: work after an internal wake-up
+class _TwoWaitWork(Workflow):
+    """waits (timeout x, nobody answers: the run wakes up BY ITSELF and goes idle a second time), waits again without timeout, is answered by a
+    client at instant a, then works z seconds: release timers of both idle periods are around while the step works"""
+
+    @step
+    async def s0(self, ctx: Context, ev: StartEvent) -> StopEvent:
+        try:
+            await ctx.wait_for_event(ExtEv, waiter_id="q1", timeout=self.x)
+        except asyncio.TimeoutError:
+            pass
+        b = await ctx.wait_for_event(ExtEv, waiter_id="q2", timeout=None)
+        if self.z:
+            await asyncio.sleep(self.z)
+        return StopEvent(result=b.n)
+
+
+def _two_wait_work(x: int, z: int):
+    w = _TwoWaitWork(timeout=None)
+    w.x, w.z = x, z
+    return w
+
+
+@obligation(quick=240, thorough=600,
+            partitions_quick=[f"precreate == {p} and T == {t}" for p in (False, True) for t in (2, 3)],
+            partitions_thorough=[f"precreate == {p} and T == {t} and z == {z}" for p in (False, True) for t in (2, 3, 4) for z in (0, 1, 2, 3)],
+            what="DBOS stack (real DBOSIdleReleaseDecorator + real sqlite lifecycle lock over a stub inner runtime): a run that woke up by itself "
+                 "(a wait_for_event timeout x < idle_timeout) and went idle a second time is answered by a client at instant a and then "
+                 "works z seconds — it is not released while that step runs (no release timer of either idle period survives the event): "
+                 "the run completes with the event's payload, no errors",
+            bounds={"idle_timeout T": "2..3 (thorough 4)", "internal timeout x": "1..T-1", "answer instant a": "x+1..x+T+1", "work z": "0..3"})
+def ob_dbos_work_after_internal_wake(T: int, x: int, a: int, z: int, precreate: bool) -> bool:
+    """
+    pre: not DBOS_RUNTIME_TOUCHES_LIFECYCLE
+    pre: 2 <= T <= TW and 1 <= x < T and x < a <= x + T + 1 and 0 <= z <= 3
+    post: _
+    """
+    T, x, a, z = concrete(T, 2, 4), concrete(x, 1, 3), concrete(a, 2, 9), concrete(z, 0, 3)
+    precreate = bool(precreate)
+    o = run_stack("dbos", T, [(a, P1)], lambda: _two_wait_work(x, z), _mk_event, early=True, probe_to=0, settle=T + 2, horizon=12,
+                  precreate=precreate)
+    bad = []
+    if o["errors"] or o["loop_exceptions"]:
+        bad.append(f"errors {o['errors']} {o['loop_exceptions']}")
+    if o["status"] != "completed" or o["result"] != P1:
+        bad.append(f"final {o['status']}/{o['result']} (lifecycle row {o['final']['lifecycle']}), wanted completed/{P1}")
+    _debug(f"dbos internal wake T={T} x={x} a={a} z={z} precreate={precreate}", bad)
+    return not bad
+
+
+TW = B(3, 4)
